@@ -132,7 +132,13 @@ loop:
 			}
 			deploymentCounter.WithLabelValues("reserve-hostnames", "success").Inc()
 			defer dm.hostnameService.ReleaseHostnames(allHostnames)
-			runch = dm.startDeploy()
+			if dm.state == dsTeardownPending {
+				// teardown was requested while the hostnames were being reserved:
+				// nothing may be deployed any more, remove what is there and exit
+				runch = dm.startTeardown()
+			} else {
+				runch = dm.startDeploy()
+			}
 
 		case shutdownErr = <-dm.lc.ShutdownRequest():
 			veriftrace.Emit("cluster-manager", dm.lease.String(), "recv-shutdown")
